@@ -1,4 +1,4 @@
-import GraphSlam.Model.GraphIter
+import GraphSlam.Model.Run
 import Driver.Asm
 
 /-!
@@ -56,53 +56,73 @@ def Rd.info (r : Rd) : Option ((Nat → Nat → Float) × Rd) := do
   let (a, r) ← r.flts (m * m)
   pure (fun i j => a.getD (i * m + j) nan, r)
 
+def fmtOpt (x : Option Float) : String := match x with | some v => fmtFloat v | none => "none"
+
+def fmtReport (r : GraphSlam.Model.Report Float) : String :=
+  let its := r.iters.map fun it => s!"{fmtOpt it.chi2}:{fmtOpt it.relDiff}:{if it.complete then 1 else 0}"
+  s!"conv={if r.converged then 1 else 0} n={match r.numIterations with | some k => toString k | none => "none"} init={fmtOpt r.initialChi2} final={fmtOpt r.finalChi2} iters={",".intercalate its}"
+
+structure TypedGraph where
+  ids : List Int
+  flags : List Bool
+  ps : List (Pose Float)
+  es : List (Option (Edge Float))
+
+/-- `<nv> {<id> <kind> <flag> <vals>*}*nv <ne> {odo|lm …}*ne` -/
+def Rd.graph (r : Rd) : Option (TypedGraph × Rd) := do
+  let (nv, r) ← r.nat
+  let mut ids : List Int := []
+  let mut flags : List Bool := []
+  let mut ps : List (Pose Float) := []
+  let mut r := r
+  for _ in [0:nv] do
+    let (vid, r1) ← r.int
+    let (k, r2) ← r1.str
+    let (fl, r3) ← r2.nat
+    let d ← kindDim k
+    let (a, r4) ← r3.flts d
+    let p ← mkPose k a
+    ids := ids ++ [vid]
+    flags := flags ++ [fl != 0]
+    ps := ps ++ [p]
+    r := r4
+  let (ne, r') ← r.nat
+  r := r'
+  let mut es : List (Option (Edge Float)) := []
+  for _ in [0:ne] do
+    let (ty, r1) ← r.str
+    let (a, r2) ← r1.int
+    let (b, r3) ← r2.int
+    let (z, r4) ← r3.pose
+    let ia := indexOfId ids a
+    let ib := indexOfId ids b
+    if ty == "odo" then
+      let (info, r5) ← r4.info
+      es := es ++ [match ia, ib with | some i, some j => some (Edge.odo i j z info) | _, _ => none]
+      r := r5
+    else
+      let (off, r5) ← r4.pose
+      let (info, r6) ← r5.info
+      es := es ++ [match ia, ib with | some i, some j => some (Edge.lm i j z off info) | _, _ => none]
+      r := r6
+  pure ({ ids := ids, flags := flags, ps := ps, es := es }, r)
+
+def dumpState (s : GState Float) : String :=
+  " ".intercalate (s.map fun v => " ".intercalate ((poseVals v.2.2).map fmtFloat))
+
 def handleIter (ws : List String) : String :=
   let r : Rd := { toks := ws.toArray }
   let res : Option String := do
     let (ffp, r) ← r.nat
-    let (nv, r) ← r.nat
-    let mut ids : List Int := []
-    let mut flags : List Bool := []
-    let mut ps : List (Pose Float) := []
-    let mut r := r
-    for _ in [0:nv] do
-      let (vid, r1) ← r.int
-      let (k, r2) ← r1.str
-      let (fl, r3) ← r2.nat
-      let d ← kindDim k
-      let (a, r4) ← r3.flts d
-      let p ← mkPose k a
-      ids := ids ++ [vid]
-      flags := flags ++ [fl != 0]
-      ps := ps ++ [p]
-      r := r4
-    let (ne, r') ← r.nat
-    r := r'
-    let mut es : List (Option (Edge Float)) := []
-    for _ in [0:ne] do
-      let (ty, r1) ← r.str
-      let (a, r2) ← r1.int
-      let (b, r3) ← r2.int
-      let (z, r4) ← r3.pose
-      let ia := indexOfId ids a
-      let ib := indexOfId ids b
-      if ty == "odo" then
-        let (info, r5) ← r4.info
-        es := es ++ [match ia, ib with | some i, some j => some (Edge.odo i j z info) | _, _ => none]
-        r := r5
-      else
-        let (off, r5) ← r4.pose
-        let (info, r6) ← r5.info
-        es := es ++ [match ia, ib with | some i, some j => some (Edge.lm i j z off info) | _, _ => none]
-        r := r6
+    let (g, r) ← r.graph
     let (n, r'') ← r.nat
     let (dx, _) ← r''.flts n
-    let s0 := initState 0 ps
-    let flags' := applyFixFirst (ffp != 0) flags
+    let s0 := initState 0 g.ps
+    let flags' := applyFixFirst (ffp != 0) g.flags
     let fixed := fixedIndices flags' (s0.map (·.1))
     let head := " ".intercalate (flags'.map fun b => if b then "1" else "0") ++ " | " ++
       " ".intercalate (fixed.map toString) ++ " | " ++ " ".intercalate (s0.map fun v => toString v.1)
-    match allSome es with
+    match allSome g.es with
     | none => pure ("unbound " ++ head)
     | some es2 =>
       match system fixed es2 s0, step (fun _ _ => fun i => dx.getD i nan) fixed es2 s0 with
@@ -111,8 +131,40 @@ def handleIter (ws : List String) : String :=
         pure ("ok " ++ head ++ s!" | {fmtFloat chi2} {nN} " ++
           " ".intercalate ((List.range nN).map fun i => fmtFloat (b i)) ++ " " ++
           " ".intercalate ((List.range nN).flatMap fun i => (List.range nN).map fun j => fmtFloat (H i j)) ++ " | " ++
-          " ".intercalate (s1.map fun v => " ".intercalate ((poseVals v.2.2).map fmtFloat)))
+          dumpState s1)
       | _, _ => pure ("illtyped " ++ head)
+  match res with
+  | some s => s
+  | none => "err bad-args"
+
+/-- `run <tol> <maxIter> <ffp> <graph> <K> {<N> <dx>*N}*K`: a whole `optimize` call; iteration `i < K` applies the `i`-th
+    recorded increment (later ones, never reached by a faithful run, apply NaN).
+    Reply: `ok <report> | <flags'> | <returned poses>` or `err IndexError`. -/
+def handleRun (ws : List String) : String :=
+  let r : Rd := { toks := ws.toArray }
+  let res : Option String := do
+    let (tol, r) ← r.flt
+    let (maxIter, r) ← r.nat
+    let (ffp, r) ← r.nat
+    let (g, r) ← r.graph
+    let (k, r') ← r.nat
+    let mut r := r'
+    let mut dxs : Array (Array Float) := #[]
+    for _ in [0:k] do
+      let (n, r1) ← r.nat
+      let (dx, r2) ← r1.flts n
+      dxs := dxs.push dx
+      r := r2
+    match allSome g.es with
+    | none => pure "unbound"
+    | some es2 =>
+      let eps : Float := Float.ofBits 0x3CB0000000000000  -- np.finfo(float).eps = 2^-52
+      let dxf : Nat → Nat → Float := fun i t => match dxs[i]? with | some a => a.getD t nan | none => nan
+      match optimizeRun tol eps maxIter (ffp != 0) g.flags dxf es2 g.ps with
+      | .error _ => pure "err IndexError"
+      | .ok (rep, st, flags') =>
+        pure ("ok " ++ fmtReport rep ++ " | " ++ " ".intercalate (flags'.map fun b => if b then "1" else "0") ++ " | " ++
+          (match st with | some s => dumpState s | none => "illtyped"))
   match res with
   | some s => s
   | none => "err bad-args"
